@@ -56,6 +56,8 @@ def point_density(p, f, d):
     E = jonswap_1d(f, p["hs"], p["fp"], p.get("gamma", 3.3))[:, None] * spreading(d, p["theta"], p["power"])[None, :]
     if k in ("swell_sea", "cross_chop"):
         E = E + jonswap_1d(f, p["hs2"], p["fp2"], 5.0)[:, None] * spreading(d, p["theta2"], 20)[None, :]
+    if k == "opposing_seas":
+        E = E + jonswap_1d(f, p["hs2"], p["fp2"], p.get("gamma", 3.3))[:, None] * spreading(d, p["theta2"], p["power"])[None, :]
     if p.get("positive_floor"):
         E = E + 1e-9 * (E.max() if E.max() > 0 else 1.0)
     return E
@@ -83,6 +85,12 @@ def point(draw, kinds=("jonswap", "jonswap", "pm", "swell_sea", "random", "empty
         # dissipation-weighted wave direction (first guess of the wind direction)
         off = draw(fl(30.0, 120.0)) * draw(st.sampled_from([-1.0, 1.0]))
         p.update({"hs2": p["hs"] * draw(fl(0.05, 0.3)), "fp2": fp * draw(fl(1.8, 3.0)), "theta2": (p["theta"] + off) % 360.0})
+    if k == "opposing_seas":
+        # two wind seas of similar peak frequency running against each other (turning winds, reflections off a coast):
+        # two separated sectors of steep waves at the same frequencies. The weaker one has 50-85 % of the height, so the
+        # dissipation-weighted mean direction stays well defined.
+        off = draw(fl(150.0, 210.0))
+        p.update({"hs2": p["hs"] * draw(fl(0.5, 0.85)), "fp2": fp * draw(fl(0.9, 1.1)), "theta2": (p["theta"] + off) % 360.0})
     if k == "random":
         p["seed"] = draw(st.integers(0, 2 ** 32 - 1))
         p["zero_fraction"] = draw(st.sampled_from([0.0, 0.3, 0.8]))
